@@ -9,12 +9,20 @@
                               on scratch s | (1 t hi) about to Release | (2 t hi) Eval
                               | (3 t site seed) Garble failed at error site [site] (0 R, 2 input
                               labels, 3 a gate); it reserves one scratch number
+         | (2 key dims gates NumGates (rnd1...) (rnd2...) reuse)
+                              the scratch of a garbling (Circuit/Scratch.v): Garble with the
+                              random blocks rnd1 into a scratch made by the pool's New for this
+                              circuit; when rnd2 is not empty a second Garble with rnd2 into
+                              the scratch the first one left (reuse = 1: pool.Get returned the
+                              released object) or into a new one (reuse = 0)
    output = the C01 observable | (accepted nscratch live)
+          | (0 len(wires) len(slab) len(gates) slabOff-at-the-end ((off len cap) | () ...)
+               (slab content...) ((rows read through Garbled.Gates[i])...)) | (1 gate site) panic
      accepted 1 iff the small-step model of Pool.v can produce this history and
      every state on the way satisfies the exclusivity predicate; nscratch =
      scratch objects created, live = handles not released at the end. *)
 From Coq Require Import ZArith Arith List Bool.
-From Mpc Require Import Base.Sx Circuit.RunC01 Circuit.Pool.
+From Mpc Require Import Base.Sx Base.Label Base.Aes Circuit.Circuit Circuit.Garble Circuit.RunC01 Circuit.Pool Circuit.Scratch.
 Import ListNotations.
 Open Scope nat_scope.
 
@@ -29,9 +37,42 @@ Definition event_of_sx (s : sx) : event :=
 Definition count_live (N : nat) (st : state) : nat :=
   length (flat_map (fun t => live_scrs (s_thr st t)) (seq 0 N)).
 
+Definition sx_of_hdr (h : hdr) : sx :=
+  match h with
+  | None => SL []
+  | Some (o, n) => SL [ofnat o; ofnat n; ofnat n]
+  end.
+
+Definition sx_of_gres (r : gres) : sx :=
+  match r with
+  | GOk g sc off =>
+      SL [SZ 0; ofnat (length (sc_wires sc)); ofnat (length (sc_slab sc)); ofnat (length (sc_gates sc));
+          ofnat off; SL (map sx_of_hdr (sc_gates sc)); ofLN (sc_slab sc);
+          SL (map ofLN (view (sc_slab sc) (sc_gates sc)))]
+  | GPanic gi k => SL [SZ 1; ofnat gi; ofnat k]
+  end.
+
+Definition run_c17_sizing (inp : sx) : sx :=
+  let pi := aes_pi (aes_schedule (getLN (nthx 1 inp))) in
+  let c := circuit_of_sx (nthx 2 inp) (nthx 3 inp) in
+  let ng := getnat (nthx 4 inp) in
+  let r1 := getLN (nthx 5 inp) in
+  let r2 := getLN (nthx 6 inp) in
+  let fresh := new_scratch (scratch_shape c ng) in
+  match garble_into pi (fun i => nth i r1 0%N) fresh c with
+  | GOk g sc off =>
+      match r2 with
+      | [] => sx_of_gres (GOk g sc off)
+      | _ :: _ => sx_of_gres (garble_into pi (fun i => nth i r2 0%N)
+                               (if Z.eqb (getZ (nthx 7 inp)) 1 then sc else fresh) c)
+      end
+  | GPanic gi k => sx_of_gres (GPanic gi k)
+  end.
+
 Definition run_c17 (inp : sx) : sx :=
   match getZ (nthx 0 inp) with
   | 0%Z => run_c01 (nthx 1 inp)
+  | 2%Z => run_c17_sizing inp
   | _ =>
       let N := getnat (nthx 1 inp) in
       let evs := map event_of_sx (getL (nthx 2 inp)) in
